@@ -8,10 +8,12 @@ from vlib import impl
 from vlib import repairflow as rf
 
 RULE = ("Flow A: TLC runs the repair machine (scan step per action, look-back, product, check filter) on every walk of length "
-        "6..8 (7..10) of generated order-1 and order-2 graphs x every admissible single edit (pairs thorough), with and without the "
+        "6..8 (7..10) of generated order-1 and order-2 graphs (one with a self-loop next to a late-surfacing error; thorough: 12-step walks of an order-3 graph over {A, C} without runs of three), x every "
+        "admissible single edit (pairs thorough), with and without the "
         "check of the original, indel on (and off for substitutions), checking Recovers and DetectsIffNotWalk; every exported case "
         "is replayed into repair_dna: a result equal to the machine's inherits TLC's verdict, a differing one is judged on its own "
-        "by Trace_Repair. Flow B: seeded walks of 40..200 nt on generated graphs of orders 2..4 with 1..3 spaced edits "
+        "by Trace_Repair; half of the replayed calls are preceded by a repair of the same strand on the same accessor object with the "
+        "other has_indel setting (history must not show). Flow B: seeded walks of 40..200 nt on generated graphs of orders 2..4 with 1..3 spaced edits "
         "(admissibility decided by TLC). Distinct non-trivial = distinct (graph, start, corrupted strand, check, indel).")
 
 MINE = rf.C08
@@ -66,8 +68,8 @@ def flow_b(ctx, mine, n, salt, kinds=("edited",)):
         for j in range(4 if k < 5 else 10):          # index arithmetic beyond one byte starts at order 5: more cases there
             start = cf.pick_start(rng, live)
             L = rng.choice([3 * k + 4, 40, 80, 120, 200])
-            if "long" in kinds and j == 0 and i % 8 == 0:
-                L = rng.choice([600, 900])              # many separated error sites: the candidate product is astronomically large
+            if "long" in kinds and j == 0 and i % 8 in (0, 2, 3):        # orders 2, 4 and 5 (thorough: 2, 4, 5)
+                L = rng.choice([600, 900])              # many separated error sites: the candidate product is astronomically large (beyond 64 bits)
             w, v = [], start
             for _ in range(L):
                 a = rng.choice(live[v])
@@ -112,7 +114,7 @@ def flow_b(ctx, mine, n, salt, kinds=("edited",)):
                 while p < len(s) - 2 * k:
                     s[p] = (s[p] + rng.randint(1, 3)) % 4
                     p += rng.randint(10, 13)
-                indel, heap = rng.choice([True, False]), 1000
+                indel, heap = rng.choice([True, True, False]), 1000
             elif kind == "clean":
                 es, s, indel, heap, ww = [], list(w), rng.choice([True, False]), rng.choice([0, 1, 3, 1000]), []
             else:   # anywhere: errors in the first / last window, random strings, dense errors
@@ -142,7 +144,7 @@ def flow_b(ctx, mine, n, salt, kinds=("edited",)):
                 else:
                     vt = [rng.randrange(4) for _ in range(nvt)]      # any string is a legitimate check to supply
             rec = {"start": start, "dna": s, "vt": vt, "indel": indel, "heap": heap}
-            o = rf.run_repair(acc, start, s, k, vt, indel, heap, log=(len(s) <= 200))
+            o = rf.run_repair(acc, start, s, k, vt, indel, heap, log=(len(s) <= 200), prior=(j % 2 == 1 and len(s) <= 200))
             cases.append(rf.case_of(gi, rec, o, w=ww, es=es))
     # conformance only: the public path_matching function with its (kind, position, nucleotide) annotations and look-up count
     for gi, g in enumerate(graphs[:12], 1):
@@ -193,7 +195,7 @@ def flow_b(ctx, mine, n, salt, kinds=("edited",)):
 def run(ctx):
     ctx.tlc("MC_Repair", "MC_Repair_witness1.cfg", expect_violation=True, workers=16, heap="8g")
     cfgs = ["MC_Repair_edits_quick1.cfg", "MC_Repair_edits_quick2.cfg"] if ctx.quick else \
-        ["MC_Repair_edits_thorough1.cfg", "MC_Repair_edits_thorough2.cfg", "MC_Repair_pairs_thorough1.cfg"]
+        ["MC_Repair_edits_thorough1.cfg", "MC_Repair_edits_thorough2.cfg", "MC_Repair_edits_quick3.cfg", "MC_Repair_pairs_thorough1.cfg"]
     na = rf.flow_a(ctx, cfgs, MINE, "A")
     ctx.exhaustive = True
     nb = flow_b(ctx, MINE, 40 if ctx.quick else 300, 8)
